@@ -43,7 +43,7 @@ func nopObj(kind, val string) map[string]any {
 
 // stepBehaviour of one pipeline step in the reconcile under test.
 type stepBehaviour struct {
-	Kind string   `json:"kind"` // normal | warning | error | fatal | reqNever | reqStable
+	Kind string   `json:"kind"` // normal | warning | error | fatal | reqNever | reqNeverLabels | reqStable
 	Add  []string `json:"add,omitempty"`
 	Del  []string `json:"del,omitempty"`
 	N    int      `json:"n,omitempty"` // reqStable: round at which requirements stop changing
@@ -59,6 +59,9 @@ type pcase struct {
 	Steps     []stepBehaviour `json:"steps"`
 	Perturb   []perturbation  `json:"perturb,omitempty"`
 	ObserveErr bool           `json:"observeErr,omitempty"` // inject a read error into the observer
+	// Flip lists resource names that the reconcile under test desires at apiVersion v2 although
+	// they were composed at v1 (same kind: the name keeps its kind, as the quantifier requires)
+	Flip []string `json:"flipVersion,omitempty"`
 }
 
 func (p *pcase) failing() (bool, int, string) {
@@ -67,7 +70,7 @@ func (p *pcase) failing() (bool, int, string) {
 	}
 	for i, s := range p.Steps {
 		switch s.Kind {
-		case "error", "fatal", "reqNever":
+		case "error", "fatal", "reqNever", "reqNeverLabels":
 			return true, i, s.Kind
 		}
 	}
@@ -104,7 +107,7 @@ func genCase(c *kit.Ctx, i int) pcase {
 	failKind := ""
 	if r.IntN(100) < 60 {
 		failAt = r.IntN(ns)
-		failKind = []string{"error", "fatal", "reqNever"}[r.IntN(3)]
+		failKind = []string{"error", "fatal", "reqNever", "reqNeverLabels"}[r.IntN(4)]
 	}
 	for s := 0; s < ns; s++ {
 		b := stepBehaviour{Kind: "normal"}
@@ -136,6 +139,11 @@ func genCase(c *kit.Ctx, i int) pcase {
 	}
 	if failAt < 0 && r.IntN(8) == 0 {
 		p.ObserveErr = true
+	}
+	for _, n := range p.Initial {
+		if r.IntN(5) == 0 {
+			p.Flip = append(p.Flip, n)
+		}
 	}
 	return p
 }
@@ -192,8 +200,12 @@ func desiredWith(req *fnv1.RunFunctionRequest) *fnv1.State {
 	return d
 }
 
-func addRes(d *fnv1.State, n string) error {
-	s, err := structpb.NewStruct(nopObj(kindOf(n), "v-"+n))
+func addRes(d *fnv1.State, n string, v2 bool) error {
+	o := nopObj(kindOf(n), "v-"+n)
+	if v2 {
+		o["apiVersion"] = "nop.ex.org/v2"
+	}
+	s, err := structpb.NewStruct(o)
 	if err != nil {
 		return err
 	}
@@ -212,7 +224,7 @@ func (w *worker) program(step int, req *fnv1.RunFunctionRequest) (*fnv1.RunFunct
 	if initial {
 		if step == 0 {
 			for _, n := range p.Initial {
-				if err := addRes(d, n); err != nil {
+				if err := addRes(d, n, false); err != nil {
 					return nil, err
 				}
 			}
@@ -224,7 +236,13 @@ func (w *worker) program(step int, req *fnv1.RunFunctionRequest) (*fnv1.RunFunct
 	}
 	b := p.Steps[step]
 	for _, n := range b.Add {
-		if err := addRes(d, n); err != nil {
+		flip := false
+		for _, f := range p.Flip {
+			if f == n {
+				flip = true
+			}
+		}
+		if err := addRes(d, n, flip); err != nil {
 			return nil, err
 		}
 	}
@@ -246,6 +264,11 @@ func (w *worker) program(step int, req *fnv1.RunFunctionRequest) (*fnv1.RunFunct
 		rsp.Results = []*fnv1.Result{{Severity: fnv1.Severity_SEVERITY_WARNING, Message: "scripted warning"}}
 	case "reqNever":
 		rsp.Requirements = reqName(round)
+	case "reqNeverLabels":
+		// same requirement name, apiVersion and kind every round; only the label VALUE changes
+		rsp.Requirements = &fnv1.Requirements{ExtraResources: map[string]*fnv1.ResourceSelector{
+			"r": {ApiVersion: "v1", Kind: "ConfigMap", Match: &fnv1.ResourceSelector_MatchLabels{MatchLabels: &fnv1.MatchLabels{Labels: map[string]string{"round": fmt.Sprint(round)}}}},
+		}}
 	case "reqStable":
 		k := round
 		if k > b.N {
